@@ -37,7 +37,7 @@ def natural_scripts(quick):
     # the last assignment resets the state to None / a falsy value; an exception which cannot be pickled ends the work
     for kind in ('T', 'P', 'R', 'PT', 'PP', 'PR'):
         pers = len(kind) == 2
-        for last, ending in (('none', 'return'), ('none', 'raise'), ('falsy', 'return'), (None, 'raise-unpicklable')):
+        for last, ending in (('none', 'return'), ('none', 'raise'), ('falsy', 'return'), (None, 'raise-unpicklable'), (None, 'return-unpicklable')):
             kwargs = {'m': 1, 'ending': ending}
             if last:
                 kwargs['last'] = last
